@@ -12,9 +12,10 @@ VERIF = os.path.dirname(HERE)
 
 
 def make_replay(prop, v, tier):
-    os.makedirs(os.path.join(VERIF, 'replays'), exist_ok=True)
+    rdir = os.path.join(os.environ['VERIF_BUILD_DIR'], 'replays') if os.environ.get('VERIF_BUILD_DIR') else os.path.join(VERIF, 'replays')
+    os.makedirs(rdir, exist_ok=True)
     h = hashlib.sha1(v['id'].encode()).hexdigest()[:10]
-    path = os.path.join(VERIF, 'replays', f'{prop}-{h}.json')
+    path = os.path.join(rdir, f'{prop}-{h}.json')
     reproduced = False
     rec = {'property': prop, 'unit': v.get('unit'), 'engine': v.get('engine'), 'obligation': v['id'],
            'function': v.get('fn'), 'message': v.get('message'), 'clause': v.get('clause'), 'site': v.get('site'),
